@@ -254,29 +254,30 @@ TYPES = ['boolean', 'BOOLEAN', 'Integer', 'REAL', 'String', 'Unique_Id', 'unique
 NTYPES = len(TYPES)
 
 
-def check_type(ti: int) -> bool:
+def check_type(ti: int, how: int) -> bool:
     """
-    pre: 0 <= ti < NTYPES
+    pre: 0 <= ti < NTYPES and 0 <= how < 3
     post: POST(_)
     """
+    # how: 0 = no argument, 1 = value given positionally, 2 = value given by keyword
     global LAST_DIFF
-    ti = cs(ti, 0, NTYPES - 1)
+    ti = cs(ti, 0, NTYPES - 1); how = cs(how, 0, 2)
     ty = TYPES[ti]
     m = xtuml.MetaModel(xtuml.IntegerGenerator())
     m.define_class('Q', [('x', ty)])
     exc = None
     inst = None
     try:
-        inst = m.new('Q')
+        inst = m.new('Q') if how == 0 else (m.new('Q', 1) if how == 1 else m.new('Q', x=1))
     except xtuml.MetaException:
         exc = 'meta'
-    case('type', ty)
+    case('type', ty, how)
     known = ty.upper() in ('BOOLEAN', 'INTEGER', 'REAL', 'STRING', 'UNIQUE_ID')
     if known:
         if exc is not None:
             LAST_DIFF = ('known type rejected', ty); return False
         exp = {'BOOLEAN': False, 'INTEGER': 0, 'REAL': 0.0, 'STRING': '', 'UNIQUE_ID': 1}[ty.upper()]
-        if inst.x != exp or type(inst.x) is not type(exp):
+        if how == 0 and (inst.x != exp or type(inst.x) is not type(exp)):
             LAST_DIFF = ('default', ty, repr(inst.x)); return False
     elif exc != 'meta':
         LAST_DIFF = ('unknown type accepted', ty); return False
